@@ -69,7 +69,11 @@ if rc != 1:  # on a tree that already violates the property every variant is tri
             print(f"selftest: skipped {r['variant']} ({r['status']})")
             continue
         st["applied"] += 1
-        if r["status"] == "detected":
+        if r["status"].startswith("known-miss"):
+            st.setdefault("known_misses", []).append(r["variant"])
+            st["applied"] -= 1
+            print(f"selftest: {r['variant']} is a recorded miss ({r['status']}), see its meta.json")
+        elif r["status"] == "detected":
             st["detected"] += 1
         else:
             st["missed"].append(r["variant"])
